@@ -257,6 +257,7 @@ type outcome struct {
 	Ints     []int64
 	Bytes    []byte
 	Err      error
+	Retain   []byte // the very slice ReadBytes returned (documented to be a copy: must never change later)
 }
 
 func errClass(e error) string {
@@ -323,7 +324,8 @@ func apply(b bufAPI, o op) (out outcome) {
 		out.Bytes = append([]byte(nil), b.Next(o.N)...)
 	case "ReadBytes":
 		line, err := b.ReadBytes(o.Delim)
-		out.Bytes, out.Err = line, err
+		out.Bytes, out.Err = append([]byte(nil), line...), err
+		out.Retain = line
 	case "ReadString":
 		line, err := b.ReadString(o.Delim)
 		out.Bytes, out.Err = []byte(line), err
@@ -398,6 +400,12 @@ func checkSequence(t *rapid.T, test string) {
 	ops := rapid.SliceOfN(genOp(), 1, 40).Draw(t, "ops")
 
 	var desc []string
+	type kept struct {
+		at     int
+		live   []byte // slice handed out by PrintCtx.ReadBytes
+		frozen []byte // its contents at that moment
+	}
+	var retained []kept
 	written, hasRead, hasWrite, readAfterWrite := ref.Len(), false, false, false
 	for i, o := range ops {
 		desc = append(desc, o.Kind)
@@ -434,6 +442,14 @@ func checkSequence(t *rapid.T, test string) {
 			}
 			if errClass(got.Err) != errClass(want.Err) {
 				t.Fatalf("C19 %s: errors differ: PrintCtx %v, bytes.Buffer %v", where, got.Err, want.Err)
+			}
+		}
+		if got.Retain != nil && !got.Panicked {
+			retained = append(retained, kept{at: i, live: got.Retain, frozen: append([]byte(nil), got.Retain...)})
+		}
+		for _, k := range retained {
+			if !bytes.Equal(k.live, k.frozen) {
+				t.Fatalf("C19 %s: the line returned by ReadBytes at step %d changed afterwards (it aliases the buffer; bytes.Buffer returns a copy): was %q, now %q", where, k.at, k.frozen, k.live)
 			}
 		}
 		if pc.Len() != ref.Len() {
